@@ -5,10 +5,10 @@ D="$1"; shift
 [ -f "$D/patch.diff" ] || { echo "no patch in $D"; exit 2; }
 git -C /repo diff --quiet || { echo "/repo is dirty"; exit 2; }
 git -C /repo apply --check "$D/patch.diff" || { echo "patch does not apply"; exit 2; }
-echo "== demo on the unchanged tree"; sh "$D/demo.sh" /repo >/dev/null 2>&1; echo "demo(unchanged) exit=$?"
+echo "== demo on the unchanged tree"; bash "$D/demo.sh" /repo >/dev/null 2>&1; echo "demo(unchanged) exit=$?"
 git -C /repo apply "$D/patch.diff"
 echo "== repository suite with the change"; /verif/tools/baseline.py | tail -3
-sh "$D/demo.sh" /repo >/dev/null 2>&1; echo "demo(changed) exit=$?"
+bash "$D/demo.sh" /repo >/dev/null 2>&1; echo "demo(changed) exit=$?"
 TIER="${SEED_TIER:-quick}"
 for c in "$@"; do
   /verif/check "$c" "$TIER" > /tmp/seedeval.$$ 2>&1; rc=$?
